@@ -21,8 +21,11 @@ Conventions: Go `int64`/`int32` → `Nat` (latencies are never negative: the clo
 does not contain floats: every function that needs that count takes it as the argument `k : Nat`
 (or, one level up, a function `kf num den total` returning it for the quantile literal `num/den`).  The driver
 passes the `Float` computation (same operations, same order); the theorems use the exact rational
-`countAtQ num den total = ⌊num·total/(den·100) + 1/2⌋`.  **That the two agree is assumed, not modelled**
-(they can differ only when `num·total/(den·100)` lies within float rounding of a half-integer).
+`countAtQ num den total = ⌊num·total/(den·100) + 1/2⌋`.  **That the two agree is assumed, not modelled.**
+They can differ only when `num·total/(den·100)` lies within float rounding of a half-integer, and they do at some exact
+ties: for `q = 33.3`, `total = 500` the real number is `166.5 + 0.5 = 167` while the doubles give
+`0.333·500 = 166.49999999999997`, count 166 (likewise `66.6` at `total = 250`, `99.99` at `total = 5000`); over the
+quantile literals of the generator and every `total ≤ 10^5` these exact ties are the only disagreements.
 -/
 namespace Hist
 
